@@ -372,7 +372,8 @@ def conforms(v, t, classes):
     if not has_conv(t):
         return "opaque instance inside a conversion-free type" if contains_opaque(v) else None
     if isinstance(t, Coll):
-        if not isinstance(v, (list, tuple, set, frozenset)):
+        import collections
+        if not isinstance(v, (list, tuple, set, frozenset, collections.deque)):
             return f"collection expected, got {type(v).__name__}"
         for e in v:
             r = conforms(e, t.e, classes)
@@ -525,7 +526,7 @@ class GraphGen:
         if depth >= 3 or k < (0.3 if depth else 0.22):
             return self.hole(pool)
         if k < 0.42:
-            return Coll(r.choice(["list", "list", "seq", "coll", "mutseq", "blist", "vartuple"]), self.wrapper(pool, depth + 1))
+            return Coll(r.choice(["list", "list", "seq", "coll", "mutseq", "blist", "vartuple", "deque"]), self.wrapper(pool, depth + 1))
         if k < 0.52:
             return MapT(r.choice(["dict", "mapping", "bdict"]), Prim("str"), self.wrapper(pool, depth + 1))
         if k < 0.62:
